@@ -226,11 +226,13 @@ PROPS["C15"] = {
 # texts for MANIFEST.json
 COMMON_NOTE = ("Trusted: TLC, the CommunityModules Json/IOUtils, serde_yaml/serde_json as renderers, the harness's "
                "mechanical JSON->YAML rendering. Bounded: exhaustive only within the constants recorded in the evidence; "
-               "seeded random cases beyond. Known findings (known_findings.json) are attributed by a syntactic trigger "
-               "evaluated in TLA+ (spec/TauKnown.tla) and are not re-reported. ")
+               "seeded random cases beyond. Known findings (known_findings.json) are attributed only when a syntactic trigger "
+               "evaluated in TLA+ (spec/TauKnown.tla) holds AND the engine-layer model (spec/TauEngine.tla, TauOpt.tla) "
+               "predicts the observed result; anything else is reported. ")
 T = "explicit TLA+ specification checked with TLC; TLC-enumerated cases and seeded random cases replayed through the engine; recorded API traces validated against the specification by TLC (TraceTau)"
+T_FOLD = T + "; inductive invariant of the streaming fold machines (TauFold) discharged by Apalache in the thorough tier"
 MANIFEST_TEXT = {
- "C01": {"level": "Trace validation of the life-cycle machine (spec/TauRule.tla): for seeded random rules (depth 3, up to 4 identifiers, lists, nested blocks, casts, quantifiers) every one of the 17 switch states is a separate object of one case whose denotation is bound by the first observation; TLC rejects any later verdict that differs and any optimise() that panics. Documents are generated in three modes (negation-free rules; documents on which every predicate is definite; unrestricted) so that most comparisons are strict; comparisons on indefinite documents under a negation are attributed to the recorded known findings about operand reordering. Random exploration, not exhaustive; the optimiser itself is not modelled pass by pass.",
+ "C01": {"level": "Trace validation of the life-cycle machine (spec/TauRule.tla): for seeded random rules (depth 3, up to 4 identifiers, lists, nested blocks, casts, quantifiers) every one of the 17 switch states is a separate object of one case whose denotation is bound by the first observation; TLC rejects any later verdict that differs and any optimise() that panics. Documents are generated in three modes (negation-free rules; documents on which every predicate is definite; unrestricted) so that most comparisons are strict; comparisons on indefinite documents under a negation are attributed to the recorded known findings about operand reordering. A fifth of the cases also call optimise() a second time with other switches (spec action ReOptimise: the identity). The optimiser IS transcribed pass by pass (spec/TauOpt.tla): TLC checks NoPanic / DenStable / EngInLang on a bounded universe (MC_Opt) and the transcription's prediction is compared with every recorded observation (model_drift, zero so far); it is never the judge, only the explanation of known findings. Random exploration beyond the MC_Opt universe, not exhaustive.",
          "note": COMMON_NOTE + "Needs no oracle (self-consistency); the language-layer oracle is evaluated as well but not counted here.", "technique": T},
  "C02": {"level": "The language layer spec/TauLang.tla (mapping = conjunction in written order, sequence = disjunction, pattern kinds, numbers, casts, quantifiers, nested mappings, three-valued condition) is evaluated by TLC on every recorded (rule, document) pair: the engine's verdict and three-valued result must lie in the admissible set. Seeded random rules and rule-directed documents (1.5k quick / 30k thorough cases); results the documentation leaves open are admissible sets, not guesses.",
          "note": COMMON_NOTE + "Oracle is sound only inside the rule shapes the generators produce (well typed by construction); float text beyond 15 significant digits and non-decimal numeric strings are left open.", "technique": T},
@@ -240,28 +242,28 @@ MANIFEST_TEXT = {
          "note": COMMON_NOTE + "Says nothing about serde_yaml's own parser beyond not panicking on the fuzzed inputs; stack exhaustion beyond depth 64 is out of scope.", "technique": T},
  "C05": {"level": "Exhaustive within the bound: every token string of length <= 5 (thorough 6: 299,593 strings) over {A,B,C,and,or,not,(,)} is parsed by the TLA+ Pratt model and by the reference grammar (TLC checks they agree and that text rendering tokenises back); every accepted string and every short rejected one is loaded for real and matched under all {T,F,M} assignments of its identifiers; load outcome and every verdict must be what the reference parse yields.",
          "note": COMMON_NOTE + "Spacing variants and keyword-like identifier names are covered by the C04 condition fuzz (load outcome decided by the grammar) rather than exhaustively.", "technique": T},
- "C06": {"level": "Exhaustive within the bound: TLC enumerates every connective form (binary chains, mapping/sequence groups, not, all()/of() over identifiers, plain/all()/of()/not() key lists, batched and mixed) x arity 1..3 (thorough 1..5) x every {T,F,M} vector x every threshold, checks the solver-loop model against the truth tables and their set-lifted forms, and each case is replayed through Rule::matches (three-valued result observed via the rule and its negation) and validated by TLC against the language layer.",
-         "note": COMMON_NOTE + "Three-valued results are observed through the engine's own `not`, itself one of the enumerated forms.", "technique": T},
+ "C06": {"level": "Exhaustive within the bound: TLC enumerates every connective form (binary chains, mapping/sequence groups, not, all()/of() over identifiers, plain/all()/of()/not() key lists, batched and mixed) x arity 1..3 (thorough 1..5) x every {T,F,M} vector x every threshold, checks the solver-loop model against the truth tables and their set-lifted forms, and each case is replayed through Rule::matches (three-valued result observed via the rule and its negation; also optimised) and validated by TLC against the language layer. The non-true values of all()/of() are pinned by the same rules as and/or (DESIGN 4.1). Unbounded part (thorough tier): the group loops as streaming machines (spec/TauFold.tla) satisfy 'loop value = closed form of the table on the operands so far' as an inductive invariant discharged by Apalache for every arity and threshold; MC_Fold (TLC) ties the streaming machines to the recursive folds that the replay binds to solver.rs.",
+         "note": COMMON_NOTE + "Three-valued results are observed through the engine's own `not`, itself one of the enumerated forms.", "technique": T_FOLD},
  "C07": {"level": "Exhaustive within the bound: alphabet {a,b,A}, needles <= 2, haystacks <= 3 (thorough 4), kinds exact/prefix/suffix/contains/any and 11 regex shapes, with and without the i flag; all singles and all ordered pairs with needles <= 1: TLC checks the hit-set model of the batched automaton against the documented relations, every case is replayed (also optimised) and validated. Pattern syntax itself (what 'x*', '*x', quotes, i mean) is checked on every string <= 3 (4) over the 13 syntax characters via into_identifier. Seeded: long and multi-byte strings, lists of 1-5 patterns, arrays.",
          "note": COMMON_NOTE + "Regexes outside the seven-construct sub-language are not given a semantic oracle.", "technique": T},
- "C08": {"level": "TLC enumerates lists of 1..3 (thorough 5) members x six member families (batched strings, mixed batch classes, case-mixed, numbers, booleans, nested mappings) x seven quantifier forms x thresholds 0..k+1, checks the law 'quantified form = explicit form' in the language layer, and replays both writings as ONE case: TLC requires a single denotation and the count semantics. Seeded: lists up to 6 with subset expansion of of(n).",
+ "C08": {"level": "TLC enumerates lists of 1..3 (thorough 5) members x seven member families (batched strings, mixed batch classes, case-mixed, numbers, booleans, nested mappings, regexes that become equal once their '.*' is stripped) x nine quantifier forms (key list, sequence, identifier list, sequence of matrix-shaped mappings) x thresholds 0..k+1 x complete and partial documents, checks the law 'quantified form = explicit form' in the language layer, and replays both writings as ONE case, not optimised and under optimised switch sets: TLC requires a single denotation per switch class and the count semantics. Seeded: lists up to 6 with subset expansion of of(n).",
          "note": COMMON_NOTE + "Lists with duplicate members are excluded ('distinct members' is ambiguous).", "technique": T},
- "C09": {"level": "Exact decimal digit arithmetic in TLA+ (TLC integers are 32-bit): TLC checks trichotomy, the unions >=,<=, NaN and the engine's representation-based comparison table over 64-bit boundary points; 257 (form, operator, constant) cases x 43 field values (i64::MIN..u64::MAX, signed zero, dyadic floats, 2^63 as float, NaN, infinities, numeric and odd strings, booleans, null, containers) are replayed; seeded random 64-bit values against random constants compared digit by digit.",
+ "C09": {"level": "Exact decimal digit arithmetic in TLA+ (TLC integers are 32-bit): TLC checks trichotomy, the unions >=,<=, NaN and the engine's representation-based comparison table over 64-bit boundary points; 257 (form, operator, constant) cases x 43 field values (i64::MIN..u64::MAX, signed zero, dyadic floats, 2^63 as float, NaN, infinities, numeric and odd strings, booleans, null, containers) are replayed; seeded random 64-bit values against random constants compared digit by digit, single values and list members.",
          "note": COMMON_NOTE + "Floats are restricted to exactly representable short decimals; flt() of integers above 2^53 and str() of floats beyond 15 digits are left open.", "technique": T},
- "C10": {"level": "TLC enumerates every document shape to depth 1 (thorough 2) under a root {a, b} with position-labelled leaves x every well-formed path of <= 3 (2) segments over {a,b,a[0],a[1],b[0]} and checks the engine's cursor walk against descent; every (document, key) is then asked of Object::find / Document::find on four representations and the returned value compared structurally. Seeded: dotted/indexed keys and nested mappings through Rule::matches on documents with arrays of objects.",
+ "C10": {"level": "TLC enumerates every document shape to depth 1 (thorough 2) under a root {a, b} with position-labelled leaves x every well-formed path of <= 3 (2) segments over {a,b,a[0],a[1],b[0]} and checks the engine's cursor walk against descent; every (document, key) is then asked of Object::find / Document::find on four representations and the returned value compared structurally. A nested mapping over every array of <= 2 (3) elements (objects with each key good/bad/absent, scalars, empty arrays) is checked against 'some element satisfies it' (MC_Nest). Seeded: dotted/indexed keys and nested mappings through Rule::matches on documents with arrays of objects and null leaves; nested blocks on one field under all 17 switch sets.",
          "note": COMMON_NOTE + "Ill-formed keys (a[0][1], a..b) are checked for totality only.", "technique": T},
- "C11": {"level": "Every (rule, abstract document) of 600 (thorough 12k) seeded cases is matched through 8 representations (serde_yaml value and re-parsed text, serde_json value and re-parsed text, HashMap over std types i8..u64/f32/f64/Option/Vec/HashSet/nested maps, a hand-written Object with unsigned and with signed non-negative integers, a hand-written Document); TLC binds one denotation per (switch class, document) and rejects any disagreement.",
+ "C11": {"level": "Every (rule, abstract document) of 600 (thorough 12k) seeded cases is matched through 8 representations (serde_yaml value and re-parsed text, serde_json value and re-parsed text, HashMap over std types i8..u64/f32/f64/Option/Vec/HashSet/nested maps, a hand-written Object with unsigned and with signed non-negative integers, a hand-written Document); TLC binds one denotation per (switch class, document) and rejects any disagreement. A third of the cases are numeric predicates over integer width boundaries (i8..u64) and over floats that are exact in f32 but long in decimal.",
          "note": COMMON_NOTE + "NaN/inf cannot be carried by JSON and are skipped there.", "technique": T},
- "C12": {"level": "Per seeded case: each of 5 switch sets is optimised 4 times (printed expression must be identical - bound in the specification's `prints`), every document is matched from the main thread and from 4 threads sharing one &Rule in different orders; TLC requires every observation of a (switch class, document) to equal the bound denotation. The action property Pure (matching changes no rule state) is part of TauRule.",
-         "note": COMMON_NOTE + "Schedules of the real threads are sampled, not enumerated; cross-process determinism rests on the BTreeMap fix plus the repeated runs of quick/thorough with equal seeds.", "technique": T},
- "C13": {"level": "validate() is specified as a function of the bound denotation of the same switch class (TauRule!ValidateOk): ok iff no true_positives example fails and no true_negatives example matches, else a Validation error naming exactly the failing examples (markers planted in the examples), err (not panic) for a non-mapping example. 800 (15k) seeded cases, unoptimised and two optimised forms.",
+ "C12": {"level": "Per seeded case: each of 5 switch sets is optimised 4 times (printed expression must be identical - bound in the specification's `prints`), a second optimise() with other switches must be the identity (spec action ReOptimise), every document is matched from the main thread, from 4 free-running threads sharing one &Rule in different orders, and - for nested rules - from 16 threads that walk a hand-written document in LOCK STEP (every Object::get is a rendezvous: the schedule with maximal overlap); every case is executed again later in the same process in reverse order and once more in a second process in reverse order, every second case is the case-flag twin of its predecessor, and lists of 65-200 needles are matched in runs of different sizes; TLC requires every observation of a (switch class, document) to equal the bound denotation. The action property Pure (matching changes no rule state) is part of TauRule.",
+         "note": COMMON_NOTE + "Schedules of the real threads are sampled (free-running) or forced (lock step), not enumerated.", "technique": T},
+ "C13": {"level": "validate() is specified as a function of the bound denotation of the same switch class (TauRule!ValidateOk): ok iff no true_positives example fails and no true_negatives example matches, else a Validation error naming exactly the failing examples (markers planted in the examples; unmarked examples let the same document stand in both lists or twice in one), err (not panic) for a non-mapping example. 800 (15k) seeded cases, unoptimised and two optimised forms.",
          "note": COMMON_NOTE, "technique": T},
- "C14": {"level": "Each object (unoptimised and optimised) is serialised, reloaded through from_str and from_value; the reloaded rule's detection and examples must equal the original's (canonical YAML comparison) and its verdicts are held against the denotation of the not-optimised class; from_str/from_value must agree on load outcome.",
+ "C14": {"level": "Each object (unoptimised and optimised) is serialised, reloaded through from_str and from_value; the reloaded rule's detection and examples must equal the rule AS WRITTEN (canonical YAML comparison; identifier names differing only in case, quoting-sensitive strings) and its verdicts are held against the denotation of the not-optimised class; from_str/from_value must agree on load outcome.",
          "note": COMMON_NOTE + "Identifier order in the serialised text is HashMap order and is ignored.", "technique": T},
- "C15": {"level": "The harness is built twice (default and feature ignore_case); both run the same seeded cases in which every string pattern is case-insensitive (default build writes the i prefix, ignore_case build does not); the merged trace is validated by TLC against one denotation and the case-insensitive language-layer oracle; the pattern-text model is TLC-checked with IcBuild = TRUE.",
+ "C15": {"level": "The harness is built twice (default and feature ignore_case); both run the same seeded cases in which every string pattern is case-insensitive (default build writes the i prefix, ignore_case build does not); the merged trace is validated by TLC against one denotation and the case-insensitive language-layer oracle, not optimised and optimised. The pattern-text model is TLC-checked with IcBuild = TRUE, and every pattern string of length <= 3 over the 13 syntax characters is put through into_identifier in BOTH builds, each result judged with the build that produced it (kind, case flag, argument, regex source text).",
          "note": COMMON_NOTE, "technique": T},
- "C16": {"level": "Every match is also made through a recording document; each find(key) on the root or a nested object must be a key the rule writes for that position (spec/TauKeys.tla: blocks and positions), never a synthetic matrix key; each document comes with two variants that differ only in fields no rule addresses (including one-character keys \\u{0}..) and must share its denotation. Four switch states per case.",
+ "C16": {"level": "Every match is also made through a recording document; each find(key) on the root or a nested object must be a key the rule writes for that position (spec/TauKeys.tla: blocks and positions), never a synthetic matrix key; each document comes with two variants that differ only in fields no rule addresses (including one-character keys \\u{0}.., names that occur only as later segments of dotted keys, and extra members inside nested objects) and must share its denotation. Four switch states per case.",
          "note": COMMON_NOTE + "The recording document resolves paths with its own reference walk; number and order of calls are not constrained.", "technique": T},
- "C17": {"level": "TLC checks on every vector and every permutation (arity <= 3, thorough 4) that the solver loops and the language layer are order-free for TRUE, and emits every commutative C06 case with its reversed writing as an alternative source; seeded random rules get three random reorderings of and/or operands, mapping entries, sequence entries and list members at positions not under a negation or none-of; TLC requires one denotation per case.",
-         "note": COMMON_NOTE, "technique": T},
+ "C17": {"level": "TLC checks on every vector and every permutation (arity <= 3, thorough 4) that the solver loops and the language layer are order-free for TRUE, and emits every commutative C06 case with its reversed writing as an alternative source; seeded random rules get three random reorderings of and/or operands, mapping entries, sequence entries and list members at positions not under a negation or none-of; TLC requires one denotation per case, not optimised and under three optimised switch sets. Unbounded part (thorough tier): spec/TauFold.tla - the verdict of each group loop depends only on order-free quantities (number of true operands, any false, any missing), an inductive invariant discharged by Apalache for every arity.",
+         "note": COMMON_NOTE, "technique": T_FOLD},
 }
